@@ -18,7 +18,9 @@ var Vocab = []string{"|", "(", ")", "[", "]", ",", ";", ".", "=", "==", "!=", "=
 	"0.1.2", "0..5", "1..2", "1.2.3", "0x1g", "1e5e5", "5.e", "..5", "00.0.0", "1.e1.e1", "0x", "0xx1", "1_000",
 	// unusual runes: BOM, replacement character, runes whose low byte is ASCII white space, 4-byte runes, Unicode spaces
 	"\ufeff", "\ufffd", "\u2020", "\u0420", "\u010d", "三", "😊", "\u00a0", "\u2003", "\r", "\r\n", "\v", "\f",
-	"0x000000000000000ff", "0x10000000000000000", "`let`", "`$left`", "`count()`"}
+	"0x000000000000000ff", "0x10000000000000000", "`let`", "`$left`", "`count()`",
+	// string literals with an escape followed by a raw line break, and other multi-line oddities
+	"\"x\\ty\nz\"", "'p\\\\q\nr'", "\"a\\\"\nb\"", "`c\nd`", "'e\\\nf'"}
 
 // Hostile bytes for byte-level mutation.
 var hostileBytes = []byte{'\'', '"', '`', '\\', '/', '-', '*', ';', '(', ')', '[', ']', ' ', 0, '\n', '\t', '\r', 0xff, 0xc3, 0xef, 0xbb, 0xbf, 0xbd, 0xe2, 0x80, 0xa0, '!', '=', '~', '|', ',', '.', '0', 'x', 'e', '$', '_'}
@@ -278,6 +280,21 @@ func Patho(size int) []Named {
 		}
 		return sb.String()
 	}()+"T | where a1 > 0")
+	// wide lists nested deeply
+	k = half("a in (1,2,3,4,5,6,7,8,", ")")
+	add("in-nest-wide", "T | where "+rep("a in (1,2,3,4,5,6,7,8,", k)+"a in (0)"+rep(")", k))
+	k = half("f(1,2,3,4,5,6,7,8,9,", ")")
+	add("call-nest-wide", "T | where "+rep("f(1,2,3,4,5,6,7,8,9,", k)+"1"+rep(")", k))
+	k = half("strcat(a,b,c,d,e,f,g,h,i,", ")")
+	add("strcat-nest-wide", "T | extend s = "+rep("strcat(a,b,c,d,e,f,g,h,i,", k)+"'x'"+rep(")", k))
+	// long unterminated tokens cut inside a multi-byte character
+	for _, L := range []int{30, 62, 63, 64, 65, 126, 127, 128, 254, 255, 256, 510, 511, 512, 1022} {
+		if L < n {
+			add("open-string-partial-rune-"+itoa(L), "T | where x == \""+rep("a", L)+"\xe6\x97")
+			add("open-ident-partial-rune-"+itoa(L), "T | where `"+rep("b", L)+"\xf0\x9f\x98")
+			add("long-string-then-error-"+itoa(L), "T | where x == '"+rep("é", L/2)+"' )")
+		}
+	}
 	add("string-open-bs-cr", "T | where a == \"abc\\\r")
 	add("string-open-bs-crlf", "T | where a == 'abc\\\r\n| count")
 	add("crlf-lines", rep("T | where a == 1 // c\r\n;", fit("T | where a == 1 // c\r\n;")))
@@ -290,6 +307,8 @@ func Patho(size int) []Named {
 var ParamMaps = []map[string]string{
 	nil,
 	{},
+	{"p": "", "a": "", "x": "", "n": "", "T": ""},
+	{"p": "-1", "a": "+2", "x": "--", "n": "/*", "lim": "'"},
 	{"a": "$1", "k": "{k:String}"},
 	{"T": "x", "count": "y", "true": "0", "let": "q", "where": "w", "$left": "l", "by": "b"},
 	{"a": "'; DROP TABLE t; --", "b": "/*", "c": "", "x": "\x00"},
